@@ -62,6 +62,7 @@ int      vsim_alloc_live_list(vsim_block_info_t *out, int max);
 uint64_t vsim_alloc_unknown_frees(void);
 void     vsim_alloc_mark(void);                    /* forget currently live blocks (they are "outside the run") */
 void     vsim_alloc_track(int on);
+void     vsim_alloc_site_trace(uint32_t *buf, size_t max);   /* record a digest of (file, line) of allocation #i in buf[i] (NULL: off) */
 void     vsim_alloc_verbose(int on);              /* print "VSIM-ALLOC-FAIL file:func" to stderr when a failure is injected (crash attribution) */
 
 /* ---- AEAD / CBC / sign probes ---- */
